@@ -54,4 +54,539 @@ theorem nonzero_row (r : Nat) (h : r ≤ 703) :
   rw [e, Nat.zero_add, nzEntriesF_eq r (by omega)] at this
   exact this
 
+
+/-! ### the entries behind the bits of `fastRleLoop` -/
+
+/-- the code-length symbols (with extra bits) that the fast builder's loop writes -/
+def fastEntries : Nat → List Nat → List (Nat × Nat)
+  | _, [] => []
+  | prev, v :: rest =>
+    if v = 0 then
+      writeRepsZeros (1 + runLen v rest) ++ fastEntries prev (rest.drop (runLen v rest))
+    else
+      (if prev ≠ v then [(v, 0)] else []) ++
+      (if (if prev ≠ v then 1 + runLen v rest - 1 else 1 + runLen v rest) < 3 then
+          List.replicate (if prev ≠ v then 1 + runLen v rest - 1 else 1 + runLen v rest) (v, 0)
+        else (repDigits 2 ((if prev ≠ v then 1 + runLen v rest - 1 else 1 + runLen v rest) - 3)).reverse.map
+          fun e => (16, e)) ++
+      fastEntries v (rest.drop (runLen v rest))
+termination_by _ l => l.length
+decreasing_by all_goals (simp; omega)
+
+/-- every run is short enough for the 704-entry tables -/
+def RunsOK (l : List Nat) : Prop :=
+  ∀ k v rest, l.drop k = v :: rest → 1 + runLen v rest ≤ 703
+
+theorem RunsOK.drop {l : List Nat} (h : RunsOK l) (j : Nat) : RunsOK (l.drop j) := by
+  intro k v rest hk
+  rw [List.drop_drop] at hk
+  exact h _ v rest hk
+
+theorem static_sym_fact : ∀ v : Fin 15,
+    kCodeLengthDepth.getD v.val 0 ≤ 56 ∧ kCodeLengthDepth.getD v.val 0 ≠ 0 ∧
+    kCodeLengthBits.getD v.val 0 < 2 ^ kCodeLengthDepth.getD v.val 0 := by decide
+
+theorem sBits_lit (v : Nat) (hv : v ≤ 14) :
+    sBits (v, 0) = bitsOf (kCodeLengthDepth.getD v 0) (kCodeLengthBits.getD v 0) := by
+  unfold sBits entryBitsU
+  simp only [show ¬ v = 16 by omega, show ¬ v = 17 by omega, ↓reduceIte, List.append_nil]
+
+theorem writeClRepeat_spec (v : Nat) (hv : v ≤ 14) : ∀ (r : Nat) (w : Writer),
+    writeClRepeat v r w = .ok (w ++ ((List.replicate r (v, 0)).map sBits).flatten) := by
+  obtain ⟨h56, _, hlt⟩ := static_sym_fact ⟨v, by omega⟩
+  simp only at h56 hlt
+  intro r
+  induction r with
+  | zero => intro w; simp [writeClRepeat]
+  | succ r ih =>
+    intro w
+    simp only [writeClRepeat]
+    rw [getAt_getD kCodeLengthDepth v (by
+        have : kCodeLengthDepth.length = 18 := by decide
+        omega),
+      getAt_getD kCodeLengthBits v (by
+        have : kCodeLengthBits.length = 18 := by decide
+        omega)]
+    simp only [Out.bind_ok, writeBits_ok _ _ w hlt h56, ih]
+    simp [List.replicate_succ, sBits_lit v hv, List.append_assoc]
+
+theorem fastRleLoop_spec : ∀ (n : Nat) (l : List Nat), l.length = n → (∀ x ∈ l, x ≤ 14) →
+    RunsOK l → ∀ (prev : Nat) (w : Writer),
+    fastRleLoop prev l w = .ok (w ++ ((fastEntries prev l).map sBits).flatten) := by
+  intro n
+  induction n using Nat.strongRecOn with
+  | _ n ih =>
+    intro l hn hl hr prev w
+    cases l with
+    | nil => rw [fastRleLoop, fastEntries]; simp
+    | cons v rest =>
+      rw [fastRleLoop, fastEntries]
+      have hrl := runLen_le v rest
+      have hreps : 1 + runLen v rest ≤ 703 := hr 0 v rest rfl
+      have hdl : (rest.drop (runLen v rest)).length < n := by
+        rw [List.length_drop, ← hn]; simp; omega
+      have hrest : ∀ x ∈ rest.drop (runLen v rest), x ≤ 14 := fun x hx =>
+        hl x (List.mem_cons_of_mem _ (List.mem_of_mem_drop hx))
+      have hrok : RunsOK (rest.drop (runLen v rest)) := by
+        have := hr.drop (runLen v rest + 1)
+        rw [List.drop_succ_cons] at this
+        exact this
+      have hv : v ≤ 14 := hl v (by simp)
+      by_cases hv0 : v = 0
+      · simp only [hv0, ↓reduceIte]
+        subst hv0
+        obtain ⟨h56, hlt, hbits⟩ := zero_row (1 + runLen 0 rest) (by omega) hreps
+        rw [getAt_getD kZeroRepsDepth _ (by
+            have : kZeroRepsDepth.length = 704 := by decide +kernel
+            omega),
+          getAt_getD kZeroRepsBits _ (by
+            have : kZeroRepsBits.length = 704 := by decide +kernel
+            omega)]
+        simp only [Out.bind_ok]
+        rw [Nat.mod_eq_of_lt (by omega), writeBits_ok _ _ w hlt h56]
+        simp only [Out.bind_ok]
+        rw [ih _ hdl _ rfl hrest hrok, hbits]
+        simp [List.append_assoc]
+      · simp only [hv0, ↓reduceIte]
+        generalize hr' : (if prev ≠ v then 1 + runLen v rest - 1 else 1 + runLen v rest) = r
+        have hr703 : r ≤ 703 := by rw [← hr']; split <;> omega
+        -- first literal
+        have h1 : (if prev ≠ v then writeClRepeat v 1 w else Out.ok w)
+            = .ok (w ++ ((if prev ≠ v then [(v, 0)] else []).map sBits).flatten) := by
+          split
+          · rw [writeClRepeat_spec v hv 1 w]; rfl
+          · simp
+        rw [h1]
+        simp only [Out.bind_ok]
+        -- the repetitions
+        by_cases h3 : r < 3
+        · simp only [h3, ↓reduceIte]
+          rw [writeClRepeat_spec v hv r _]
+          simp only [Out.bind_ok]
+          rw [ih _ hdl _ rfl hrest hrok]
+          simp [List.append_assoc]
+        · simp only [h3, ↓reduceIte]
+          obtain ⟨h56, hlt, hbits⟩ := nonzero_row (r - 3) (by omega)
+          rw [getAt_getD kNonZeroRepsDepth _ (by
+              have : kNonZeroRepsDepth.length = 704 := by decide +kernel
+              omega),
+            getAt_getD kNonZeroRepsBits _ (by
+              have : kNonZeroRepsBits.length = 704 := by decide +kernel
+              omega)]
+          simp only [Out.bind_ok]
+          rw [Nat.mod_eq_of_lt (by omega), writeBits_ok _ _ _ hlt h56]
+          simp only [Out.bind_ok]
+          rw [ih _ hdl _ rfl hrest hrok, hbits]
+          simp [List.append_assoc]
+
+
+/-! ### these entries expand back to the depth vector -/
+
+/-- the repetitions of a non-zero length after the optional first literal, as the fast
+builder encodes them (no special case for 7) -/
+def tailF (v r : Nat) : List (Nat × Nat) :=
+  if r < 3 then List.replicate r (v, 0) else (repDigits 2 (r - 3)).reverse.map fun e => (16, e)
+
+theorem tailBlockF (v r : Nat) (hv0 : v ≠ 0) (hv : v < 16) (s1 : ExpandState)
+    (hp1 : s1.prevNonZero = v) (h01 : oldOf s1 v = 0) (hr0 : r = 0 → s1.rep = none) :
+    (run s1 (tailF v r)).out = s1.out ++ List.replicate r v ∧
+    (run s1 (tailF v r)).prevNonZero = v ∧
+    ∀ x, oldOf (run s1 (tailF v r)) x ≠ 0 → x = v ∧ 3 ≤ r := by
+  unfold tailF
+  by_cases h3 : r < 3
+  · simp only [h3, ↓reduceIte]
+    rw [blockLit _ _ hv]
+    by_cases hr : r = 0
+    · subst hr
+      simp only [↓reduceIte, List.replicate_zero, List.append_nil, true_and]
+      refine ⟨hp1, ?_⟩
+      intro x hx
+      simp [pendingRepeat, hr0 rfl] at hx
+    · simp only [hr, ↓reduceIte, ne_eq, hv0, not_false_eq_true]
+      refine ⟨by first | rfl | trivial, by first | rfl | trivial, ?_⟩
+      intro x hx; simp [pendingRepeat] at hx
+  · simp only [h3, ↓reduceIte]
+    rw [block16 _ (repDigits_ne_nil 2 _) _ (by rw [hp1]; exact h01), valD_repDigits2]
+    have e : r - 3 + 3 = r := by omega
+    rw [e, hp1]
+    refine ⟨rfl, rfl, ?_⟩
+    intro x hx
+    simp only [pendingRepeat] at hx
+    split at hx <;> simp_all <;> omega
+
+theorem fastEntries_roundtrip :
+    ∀ (n : Nat) (l : List Nat), l.length = n → (∀ x ∈ l, x < 16) →
+    ∀ (prev : Nat) (s : ExpandState), s.prevNonZero = prev → Good s l →
+      (run s (fastEntries prev l)).out = s.out ++ l := by
+  intro n
+  induction n using Nat.strongRecOn with
+  | _ n ih =>
+    intro l hn hlt prev s hp hg
+    cases l with
+    | nil => rw [fastEntries]; simp
+    | cons v rest =>
+      rw [fastEntries]
+      have hrl := runLen_le v rest
+      have hsplit : v :: rest = List.replicate (1 + runLen v rest) v ++ rest.drop (runLen v rest) := by
+        have h1 : 1 + runLen v rest = runLen v rest + 1 := by omega
+        conv => rhs; rw [h1, List.replicate_succ, ← take_runLen v rest (runLen v rest) (Nat.le_refl _)]
+        simp
+      have hv : v < 16 := hlt v (by simp)
+      have hrest : ∀ x ∈ rest.drop (runLen v rest), x < 16 := fun x hx =>
+        hlt x (List.mem_cons_of_mem _ (List.mem_of_mem_drop hx))
+      have hdl : (rest.drop (runLen v rest)).length < n := by
+        rw [List.length_drop, ← hn]; simp; omega
+      have hg0 : oldOf s v = 0 := hg v rfl
+      by_cases hv0 : v = 0
+      · simp only [hv0, ↓reduceIte, run_append]
+        subst hv0
+        obtain ⟨ho, hpz, hpost⟩ := zerosBlock (1 + runLen 0 rest) (by omega) s hg0
+        rw [ih _ hdl _ rfl hrest prev _ (hpz.trans hp)]
+        · rw [ho, List.append_assoc, ← hsplit]
+        · intro x hx
+          by_cases hox : oldOf (run s (writeRepsZeros (1 + runLen 0 rest))) x = 0
+          · exact hox
+          · exfalso
+            obtain ⟨hx0, _⟩ := hpost x hox
+            subst hx0
+            exact head_drop_runLen 0 rest hx
+      · simp only [hv0, ↓reduceIte, run_append]
+        generalize hr' : (if prev ≠ v then 1 + runLen v rest - 1 else 1 + runLen v rest) = r
+        have htail : (if r < 3 then List.replicate r (v, 0)
+            else (repDigits 2 (r - 3)).reverse.map fun e => (16, e)) = tailF v r := rfl
+        rw [htail]
+        -- state after the optional literal
+        obtain ⟨s1, hs1, hs1o, hs1p, hs1old, hs1rep⟩ : ∃ s1,
+            run s (if prev ≠ v then [(v, 0)] else []) = s1 ∧
+            s1.out ++ List.replicate r v = s.out ++ List.replicate (1 + runLen v rest) v ∧
+            s1.prevNonZero = v ∧ oldOf s1 v = 0 ∧ (r = 0 → s1.rep = none) := by
+          by_cases hpv : prev = v
+          · refine ⟨s, by simp [hpv], ?_, hp.trans hpv, hg0, ?_⟩
+            · rw [← hr']; simp [hpv]
+            · intro h0; rw [← hr'] at h0; simp [hpv] at h0
+          · refine ⟨⟨s.out ++ [v], v, none⟩, by simp [hpv, stepLit, hv, hv0], ?_, rfl,
+              by simp [pendingRepeat], fun _ => rfl⟩
+            rw [← hr']
+            simp only [ne_eq, hpv, not_false_eq_true, ↓reduceIte, List.append_assoc,
+              List.singleton_append, ← List.replicate_succ]
+            congr 2; omega
+        rw [hs1]
+        obtain ⟨ho, hpz, hpost⟩ := tailBlockF v r hv0 hv s1 hs1p hs1old hs1rep
+        rw [ih _ hdl _ rfl hrest v _ hpz]
+        · rw [ho, hs1o, List.append_assoc, ← hsplit]
+        · intro x hx
+          by_cases hox : oldOf (run s1 (tailF v r)) x = 0
+          · exact hox
+          · exfalso
+            obtain ⟨hxv, _⟩ := hpost x hox
+            subst hxv
+            exact head_drop_runLen x rest hx
+
+
+/-! ### validity and size of the entries -/
+
+theorem zeros_entries (reps : Nat) : ∀ e ∈ writeRepsZeros reps, e = (0, 0) ∨ (e.1 = 17 ∧ e.2 < 8) := by
+  intro e he
+  unfold writeRepsZeros at he
+  by_cases h11 : reps = 11
+  · subst h11
+    simp only [↓reduceIte, show ¬ (10 < 3) by decide, List.mem_append, List.mem_cons,
+      List.not_mem_nil, or_false, List.mem_map, List.mem_reverse] at he
+    rcases he with rfl | ⟨x, hx, rfl⟩
+    · left; rfl
+    · right; exact ⟨rfl, repDigits3_lt _ x hx⟩
+  · simp only [h11, ↓reduceIte, List.nil_append] at he
+    by_cases h3 : reps < 3
+    · simp only [h3, ↓reduceIte] at he
+      rw [List.mem_replicate] at he; left; exact he.2
+    · simp only [h3, ↓reduceIte, List.mem_map, List.mem_reverse] at he
+      obtain ⟨x, hx, rfl⟩ := he
+      right; exact ⟨rfl, repDigits3_lt _ x hx⟩
+
+/-- an entry the static code-length code can write -/
+def FastOK (e : Nat × Nat) : Prop :=
+  (e.1 ≤ 14 ∧ e.2 = 0) ∨ (e.1 = 16 ∧ e.2 < 4) ∨ (e.1 = 17 ∧ e.2 < 8)
+
+theorem fastEntries_ok : ∀ (n : Nat) (l : List Nat), l.length = n → (∀ x ∈ l, x ≤ 14) →
+    ∀ prev, (∀ e ∈ fastEntries prev l, FastOK e) ∧ (fastEntries prev l).length ≤ l.length := by
+  intro n
+  induction n using Nat.strongRecOn with
+  | _ n ih =>
+    intro l hn hl prev
+    cases l with
+    | nil => rw [fastEntries]; simp
+    | cons v rest =>
+      rw [fastEntries]
+      have hrl := runLen_le v rest
+      have hdl : (rest.drop (runLen v rest)).length < n := by
+        rw [List.length_drop, ← hn]; simp; omega
+      have hrest : ∀ x ∈ rest.drop (runLen v rest), x ≤ 14 := fun x hx =>
+        hl x (List.mem_cons_of_mem _ (List.mem_of_mem_drop hx))
+      have hd : (rest.drop (runLen v rest)).length = rest.length - runLen v rest := List.length_drop
+      have hv : v ≤ 14 := hl v (by simp)
+      by_cases hv0 : v = 0
+      · subst hv0
+        simp only [↓reduceIte]
+        obtain ⟨i1, i2⟩ := ih _ hdl _ rfl hrest prev
+        constructor
+        · intro e he
+          rcases List.mem_append.mp he with he | he
+          · rcases zeros_entries _ e he with h | h
+            · left; rw [h]; exact ⟨by omega, rfl⟩
+            · right; right; exact h
+          · exact i1 e he
+        · have := writeRepsZeros_length (1 + runLen 0 rest) (by omega)
+          simp only [List.length_append, List.length_cons]
+          omega
+      · simp only [hv0, ↓reduceIte]
+        obtain ⟨i1, i2⟩ := ih _ hdl _ rfl hrest v
+        generalize hr' : (if prev ≠ v then 1 + runLen v rest - 1 else 1 + runLen v rest) = r
+        constructor
+        · intro e he
+          rcases List.mem_append.mp he with he | he
+          · rcases List.mem_append.mp he with he | he
+            · split at he
+              · simp at he; subst he; left; exact ⟨hv, rfl⟩
+              · simp at he
+            · split at he
+              · rw [List.mem_replicate] at he; rw [he.2]; left; exact ⟨hv, rfl⟩
+              · simp only [List.mem_map, List.mem_reverse] at he
+                obtain ⟨x, hx, rfl⟩ := he
+                right; left; exact ⟨rfl, repDigits2_lt _ x hx⟩
+          · exact i1 e he
+        · simp only [List.length_append, List.length_cons]
+          have h1 : (if prev ≠ v then [(v, 0)] else []).length + r ≤ 1 + runLen v rest := by
+            rw [← hr']; split <;> simp <;> omega
+          have h2 : (if r < 3 then List.replicate r (v, 0)
+              else (repDigits 2 (r - 3)).reverse.map fun e => (16, e)).length ≤ r := by
+            split
+            · simp
+            · have := repDigits_length 2 (r - 3)
+              simp only [List.length_map, List.length_reverse]; omega
+          omega
+
+
+/-! ### assembly -/
+
+/-- the scan stops right behind a non-zero entry -/
+theorem fastScan_last (histogram : List Nat) : ∀ (hs : List Nat) (total len0 count : Nat)
+    (symbols : List Nat) (c' len' : Nat) (s' : List Nat), hs = histogram.drop len0 →
+    (total = 0 → len0 = 0 ∨ histogram.getD (len0 - 1) 0 ≠ 0) →
+    fastScan hs total len0 count symbols = .ok (c', s', len') →
+    len' = 0 ∨ histogram.getD (len' - 1) 0 ≠ 0 := by
+  intro hs
+  induction hs with
+  | nil =>
+    intro total len0 count symbols c' len' s' _ h0 h
+    simp only [fastScan] at h
+    split at h
+    · rename_i ht
+      injection h with h; injection h with h1 h2; injection h2 with h2 h3
+      subst h3; exact h0 ht
+    · cases h
+  | cons x xs ih =>
+    intro total len0 count symbols c' len' s' hdrop h0 h
+    have hl0 : len0 < histogram.length := by
+      by_cases hlt : len0 < histogram.length
+      · exact hlt
+      · rw [List.drop_eq_nil_of_le (by omega)] at hdrop; cases hdrop
+    have hx : histogram.getD len0 0 = x := by
+      rw [List.drop_eq_getElem_cons hl0] at hdrop
+      injection hdrop with h1 h2
+      rw [List.getD_eq_getElem?_getD, List.getElem?_eq_getElem hl0]; simp [h1]
+    have hxs : xs = histogram.drop (len0 + 1) := by
+      rw [List.drop_eq_getElem_cons hl0] at hdrop
+      injection hdrop with h1 h2
+    simp only [fastScan] at h
+    by_cases ht : total = 0
+    · simp only [ht, ↓reduceIte] at h
+      injection h with h; injection h with h1 h2; injection h2 with h2 h3
+      subst h3; exact h0 ht
+    · simp only [ht, ↓reduceIte] at h
+      by_cases hx0 : x = 0
+      · simp only [hx0, ne_eq, not_true_eq_false, ↓reduceIte] at h
+        exact ih total (len0 + 1) count symbols c' len' s' hxs (fun h => absurd h ht) h
+      · simp only [ne_eq, hx0, not_false_eq_true, ↓reduceIte] at h
+        apply ih _ (len0 + 1) (count + 1) _ c' len' s' hxs _ h
+        intro _
+        right
+        simp only [Nat.add_sub_cancel]
+        rw [hx]; exact hx0
+
+theorem kraftSum_replicate (L n v : Nat) (hv : v ≠ 0) :
+    kraftSum L (List.replicate n v) = n * 2 ^ (L - v) := by
+  induction n with
+  | zero => simp [kraftSum]
+  | succ n ih =>
+    unfold kraftSum at ih ⊢
+    simp only [List.replicate_succ, List.map_cons, List.sum_cons, ih, hv, ↓reduceIte, Nat.add_mul,
+      Nat.one_mul]
+    omega
+
+theorem static_clcode : ClCode kCodeLengthDepth kCodeLengthBits :=
+  { hlen := by decide, hblen := by decide, hall := by decide, hk := by decide, h2 := by decide,
+    hbits := by decide }
+
+theorem no_704_flat : ∀ v : Fin 15, v.val ≠ 0 → 704 * 2 ^ (14 - v.val) ≠ 16384 := by decide
+
+/-- a complete vector of at most 704 depths `≤ 14` has no run longer than 703 -/
+theorem runsOK_of_kraft (l : List Nat) (hlen : l.length ≤ 704) (h14 : ∀ x ∈ l, x ≤ 14)
+    (hk : kraftSum 14 l = 2 ^ 14) : RunsOK l := by
+  intro k v rest hd
+  have hrl := runLen_le v rest
+  have hdl : (l.drop k).length = l.length - k := List.length_drop
+  rw [hd] at hdl
+  simp only [List.length_cons] at hdl
+  by_cases hk0 : k = 0
+  · subst hk0
+    simp only [List.drop_zero] at hd
+    by_cases hfull : 1 + runLen v rest ≤ 703
+    · exact hfull
+    · exfalso
+      -- all 704 depths are equal
+      have hrun : runLen v rest = rest.length := by omega
+      have hall : l = List.replicate 704 v := by
+        rw [hd]
+        have := take_runLen v rest rest.length (by omega)
+        rw [List.take_length] at this
+        rw [this, ← List.replicate_succ]
+        congr 1; omega
+      have hv14 : v ≤ 14 := h14 v (by rw [hd]; simp)
+      by_cases hv0 : v = 0
+      · rw [hall, hv0] at hk
+        have : kraftSum 14 (List.replicate 704 0) = 0 := kraftSum_replicate_zero 14 704
+        rw [this] at hk
+        exact absurd hk (by decide)
+      · rw [hall, kraftSum_replicate 14 704 v hv0] at hk
+        exact no_704_flat ⟨v, by omega⟩ hv0 hk
+  · omega
+
+
+theorem sBits_eq : (fun e => sBits e)
+    = entryBitsU (fun s => bitsOf (kCodeLengthDepth.getD s 0) (kCodeLengthBits.getD s 0)) := rfl
+
+/-- `BrotliBuildAndStoreHuffmanTreeFast` with five or more symbols in use: static
+code-length code, then the depths with the precomputed repeat patterns -/
+theorem fast_complex_roundtrip (histogram : List Nat) (total maxBits A : Nat) (depth bits : List Nat)
+    (w rest : List Bool) (count length : Nat) (symbols : List Nat)
+    (hscan : fastScan histogram total 0 0 [0, 0, 0, 0] = .ok (count, symbols, length))
+    (hc : 5 ≤ count) (h704 : histogram.length ≤ 704) (hsum : histogram.sum ≤ 2 ^ 25)
+    (hdl : length ≤ depth.length) (hbl : length ≤ bits.length) (hA : length ≤ A) :
+    ∃ depth' bits' sbits, buildAndStoreHuffmanTreeFast histogram total maxBits depth bits w
+        = .ok (depth', bits', w ++ sbits) ∧
+      GoodDepth histogram length 14 (List.replicate length 0 ++ depth.drop length) depth' ∧
+      GoodBits length depth' bits bits' ∧
+      readPrefixCode A (sbits ++ rest)
+        = some (depth'.take length ++ List.replicate (A - length) 0, rest) := by
+  obtain ⟨_, hl, hs4, hcnt⟩ := fastScan_spec histogram total 0 0 [0, 0, 0, 0] count length symbols
+    rfl hscan
+  simp only [Nat.sub_zero, Nat.zero_add] at hl hcnt
+  have hlast := fastScan_last histogram histogram total 0 0 [0, 0, 0, 0] count length symbols rfl
+    (fun _ => Or.inl rfl) hscan
+  have hlen1 : 1 ≤ length := by
+    by_cases h0 : length = 0
+    · subst h0; simp at hcnt; omega
+    · omega
+  have hlastnz : histogram.getD (length - 1) 0 ≠ 0 := by
+    rcases hlast with h | h
+    · omega
+    · exact h
+  unfold buildAndStoreHuffmanTreeFast
+  rw [hscan]
+  simp only [Out.bind_ok]
+  rw [getAt_getD symbols 0 (by omega)]
+  simp only [Out.bind_ok]
+  rw [if_neg (by omega)]
+  have hzp : zeroPrefix depth length = .ok (List.replicate length 0 ++ depth.drop length) := by
+    simp [zeroPrefix, show ¬ length > depth.length by omega]
+  rw [hzp]
+  simp only [Out.bind_ok]
+  have hf : fib 17 = 1597 := by decide
+  have e1 : (2:Nat) ^ 16 = 65536 := by decide
+  have e2 : (2:Nat) ^ 25 = 33554432 := by decide
+  have h1 : length * 2 ^ 16 ≤ 704 * 2 ^ 16 := Nat.mul_le_mul_right _ (by omega)
+  have hst := sum_take_le histogram length
+  rw [e1] at h1
+  rw [e2] at hsum
+  obtain ⟨d1, hd1, hg⟩ := fast_total histogram length 16 hl (by omega) (by omega)
+    (List.replicate length 0 ++ depth.drop length) (by simp)
+    (zeroOff_zeroPrefix _ _ _) (by decide) (by rw [e1]; omega) (by rw [hf, e1]; omega)
+  rw [hd1]
+  simp only [Out.bind_ok]
+  have hd1len : length ≤ d1.length := by rw [hg.hlen]; simp
+  have hlt : (d1.take length).length = length := by rw [List.length_take]; omega
+  have hd14 : ∀ x ∈ d1.take length, x ≤ 14 := by
+    intro x hx
+    obtain ⟨i, hi, hxi⟩ := List.getElem_of_mem hx
+    rw [hlt] at hi
+    have := hg.hlim i hi
+    rw [List.getD_eq_getElem?_getD, List.getElem?_eq_getElem (by omega)] at this
+    rw [List.getElem_take] at hxi
+    simp only [Option.getD_some] at this
+    omega
+  obtain ⟨b1, hb1, _⟩ := convert_spec (d1.take length) bits
+    (fun x hx => by have := hd14 x hx; omega) (by rw [hlt]; omega) (by rw [hlt]; omega)
+  have hcv : convertBitDepthsToSymbols d1 length bits = .ok b1 := by
+    rw [convert_take d1 length bits hd1len]; exact hb1
+  rw [hcv]
+  simp only [Out.bind_ok]
+  rw [if_neg (by omega)]
+  have hgb := goodBits_of_convert d1 bits b1 length 14 (by decide) hd1len hg.hlim (by omega) hbl hcv
+  -- the writer
+  have hstatic : storeStaticCodeLengthCode w = .ok (w ++ bitsOf 40 0xff55555554) :=
+    writeBits_ok 40 0xff55555554 w (by decide) (by decide)
+  rw [hstatic]
+  simp only [Out.bind_ok]
+  rw [if_neg (by omega)]
+  have hruns := runsOK_of_kraft (d1.take length) (by rw [hlt]; omega) hd14 hg.hkraft
+  rw [fastRleLoop_spec _ (d1.take length) rfl hd14 hruns 8 _]
+  simp only [Out.bind_ok]
+  refine ⟨d1, b1, bitsOf 40 0xff55555554 ++ ((fastEntries 8 (d1.take length)).map sBits).flatten,
+    by rw [List.append_assoc], hg, hgb, ?_⟩
+  -- the reader: header
+  obtain ⟨hsf, hk32, h5, hl18⟩ := static_header_fact
+  obtain ⟨hskip, body, hw, hs4', hs1, hrd⟩ := header_roundtrip kCodeLengthDepth hl18 h5 2
+    (Or.inl ⟨by decide, hk32⟩) [] (((fastEntries 8 (d1.take length)).map sBits).flatten ++ rest)
+  rw [hsf] at hw
+  injection hw with hw
+  simp only [List.nil_append] at hw
+  rw [hw, List.append_assoc, List.append_assoc]
+  apply BV.Lemmas.HuffmanStoreTree.readPrefixCode_complex A hskip kCodeLengthDepth _ body _ hs4' hs1
+    hrd rest
+  -- the reader: code length symbols
+  have hio := symIO_of_clCode kCodeLengthDepth kCodeLengthBits static_clcode
+  obtain ⟨hok, hElen⟩ := fastEntries_ok _ (d1.take length) rfl hd14 8
+  have hvalid : ∀ e ∈ fastEntries 8 (d1.take length),
+      ValidEntryU (fun s => kCodeLengthDepth.getD s 0 ≠ 0) e := by
+    intro e he
+    have hnz15 : ∀ v : Fin 15, kCodeLengthDepth.getD v.val 0 ≠ 0 := by decide
+    rcases hok e he with ⟨h1, h2⟩ | ⟨h1, h2⟩ | ⟨h1, h2⟩
+    · exact ⟨by omega, hnz15 ⟨e.1, by omega⟩, fun h => by omega, fun h => by omega⟩
+    · refine ⟨by omega, by rw [h1]; decide, fun _ => h2, fun h => by omega⟩
+    · refine ⟨by omega, by rw [h1]; decide, fun h => by omega, fun _ => h2⟩
+  have hout : (run ⟨[], 8, none⟩ (fastEntries 8 (d1.take length))).out = d1.take length := by
+    have := fastEntries_roundtrip _ (d1.take length) rfl
+      (fun x hx => by have := hd14 x hx; omega) 8 ⟨[], 8, none⟩ rfl (by intro x _; rfl)
+    simpa using this
+  have hk15 : kraftSum 15 (d1.take length) = 32768 := kraft15_of_14 _ hd14 hg.hkraft
+  have hne : d1.take length ≠ [] := by
+    intro h; rw [h] at hlt; simp at hlt; omega
+  have hlastd : (d1.take length).getLast hne ≠ 0 := by
+    rw [List.getLast_eq_getElem]
+    have hidx : (d1.take length).length - 1 = length - 1 := by rw [hlt]
+    have := (hg.hsupp (length - 1) (by omega)).mpr hlastnz
+    rw [List.getD_eq_getElem?_getD, List.getElem?_eq_getElem (by omega)] at this
+    simp only [Option.getD_some] at this
+    simp only [hidx, List.getElem_take]
+    exact this
+  have hwf : WF ⟨[], 8, none⟩ := fun v c h => by simp at h
+  have hpre := prefix_conditions (fastEntries 8 (d1.take length)) ⟨[], 8, none⟩ hwf A
+    (by rw [hout]; exact hne) (by simpa [hout] using hlastd)
+    (by rw [hout]; intro x hx; have := hd14 x hx; omega)
+    (by rw [hout, hlt]; exact hA) (by rw [hout]; exact hk15)
+  have hread := readEntriesU hio A (fastEntries 8 (d1.take length)) ⟨[], 8, none⟩ (A + 1) rest hvalid
+    (by rw [hlt] at hElen; omega) hpre (by rw [hout, hlt]; exact hA) (by rw [hout]; exact hk15)
+  rw [hout, hlt] at hread
+  exact hread
+
 end BV.Lemmas.HuffmanFastStore
